@@ -13,10 +13,10 @@ import functools
 from .values import sig
 from .driver import make_exc
 
-ASYNC_FLAVOURS = ("agen", "aclass", "aclass_noclose")
+ASYNC_FLAVOURS = ("agen", "aclass", "aclass_noclose", "aplain")
 SYNC_FLAVOURS = ("list", "seq", "iter")
 SRC_FLAVOURS = ASYNC_FLAVOURS + SYNC_FLAVOURS
-FN_FLAVOURS = ("def", "async", "partial", "obj")
+FN_FLAVOURS = ("def", "async", "partial", "obj", "objaw")
 
 
 class SourceBase:
@@ -195,6 +195,40 @@ class AClassNoCloseSource(SourceBase):
     obj = property(lambda self: self)
 
 
+class _PullAwaitable:
+    """Plain awaitable object (neither coroutine nor generator object)."""
+
+    __slots__ = ("src",)
+
+    def __init__(self, src):
+        self.src = src
+
+    def __await__(self):
+        src = self.src
+        if src.running:
+            src.overlap = True
+        src.running = True
+        try:
+            if not src._begin():
+                raise StopAsyncIteration
+            for _ in range(src.susp):
+                yield from src.ctx.suspend((src.name, "pull")).__await__()
+            ok, item = src._finish()
+            if not ok:
+                raise StopAsyncIteration
+            return item
+        finally:
+            src.running = False
+
+
+class APlainSource(AClassSource):
+    """Class based async iterator whose ``__anext__`` is a plain ``def`` returning a
+    custom awaitable object (not a coroutine)."""
+
+    def __anext__(self):
+        return _PullAwaitable(self)
+
+
 class AgenSource(SourceBase):
     """A real async generator (has aclose/asend/athrow, is finalised by GC)."""
 
@@ -238,6 +272,7 @@ _SRC_CLASSES = {
     "agen": AgenSource,
     "aclass": AClassSource,
     "aclass_noclose": AClassNoCloseSource,
+    "aplain": APlainSource,
     "list": ListSource,
     "seq": SeqSource,
     "iter": SyncSource,
@@ -341,6 +376,24 @@ class Fn:
                 return await coro(*args)
 
             return functools.partial(coro2, "extra")
+        if fl == "objaw":
+
+            class _Aw:
+                """awaitable object that is neither a coroutine nor a generator"""
+
+                __slots__ = ("inner",)
+
+                def __init__(self, inner):
+                    self.inner = inner
+
+                def __await__(self):
+                    return self.inner.__await__()
+
+            class CallObjAw:
+                def __call__(self_inner, *args):  # noqa: N805
+                    return _Aw(coro(*args))
+
+            return CallObjAw()
         if fl == "obj":
             outer = self
 
